@@ -120,6 +120,14 @@ func vfFamDBaseSE(se *SettingEngine) {
 	}
 }
 
+func vfFamDQuietLogger() logging.LoggerFactory {
+	lf := logging.NewDefaultLoggerFactory()
+	if os.Getenv("VERIF_VERBOSE") == "" {
+		lf.DefaultLogLevel = logging.LogLevelDisabled
+	}
+	return lf
+}
+
 // vfFamDParallel runs f(i) for i in [0,n) on `workers` goroutines and waits for all of them.
 // f must do its own recovery (vfSession.One does).
 func vfFamDParallel(n, workers int, f func(i int) (stop bool)) {
@@ -209,7 +217,8 @@ func vfFamDNewPairNet(off, ans vfFamDPeer, certBase int, vn *vfFamDVNet) (*vfFam
 	var nwOff, nwAns *vnet.Net
 	if vn != nil {
 		router, err := vnet.NewRouter(&vnet.RouterConfig{
-			CIDR:      "10.77.0.0/24",
+			CIDR:          "10.77.0.0/24",
+			LoggerFactory: vfFamDQuietLogger(),
 			MinDelay:  time.Duration(vn.MinDelayMs) * time.Millisecond,
 			MaxJitter: time.Duration(vn.MaxJitterMs) * time.Millisecond,
 		})
